@@ -40,7 +40,9 @@ CaseClauses(c) ==
       (IF \A i \in DOMAIN x.cons : Judged(c, i) THEN
          (IF ~NearQ(c.pump.q, PumpHeat(x)) THEN {<<"C11.pump_heat", x.pump, c.mode>>} ELSE {})
          \cup (IF ~NearT(c.pump.tret, TRet(x)) THEN {<<"C10.return_temperature", x.pump, c.mode>>} ELSE {})
-         \cup (IF ~NearM(c.pump.m, MTot(x)) THEN {<<"C11.pump_mass_flow", x.pump, c.mode>>} ELSE {})
+         \cup (IF ~NearM(c.pump.m, MMain(x)) THEN {<<"C11.pump_mass_flow", x.pump, c.mode>>} ELSE {})
+         \cup (IF x.p2 = 1 /\ ~NearQ(c.pump2.q, Pump2Heat(x)) THEN {<<"C11.pump_heat", "second_producer", c.mode>>} ELSE {})
+         \cup (IF x.p2 = 1 /\ ~NearT(c.pump2.tout, R(T2FLOW)) THEN {<<"C10.feed_temperature", "second_producer", c.mode>>} ELSE {})
        ELSE {}),
       (IF ~NearT(c.pump.tflow, R(TFLOW)) THEN {<<"C10.feed_temperature", x.pump, c.mode>>} ELSE {}),
       (IF ~NearT(c.ts, TS(x)) THEN {<<"C10.supply_temperature", x.pump, c.mode>>} ELSE {})
